@@ -19,6 +19,10 @@ func (c *Client) send(pkt pkts.Packet) error {
 	if err != nil {
 		return err
 	}
+	// MQTT-SN does not support fragmentation.
+	if len(buf) > int(pkts1.MaxPacketLen) {
+		return fmt.Errorf("packet too long (%d bytes): %v", len(buf), pkt)
+	}
 	_, err = c.conn.Write(buf)
 	if err != nil {
 		return err
